@@ -388,6 +388,25 @@ M("C05-benign-reorder-ifs", "C05", "src/interrogate/functionRemap.cxx",
   "  if (_flags & F_coerce_constructor) {\n    iwrapper._flags |= InterrogateFunctionWrapper::F_coerce_constructor;\n  }\n\n  if (_flags & F_copy_constructor) {\n    iwrapper._flags |= InterrogateFunctionWrapper::F_copy_constructor;\n  }",
   benign=True)
 
+M("C05-upcast-roles-swapped", "C05", "src/interrogate/interrogateBuilder.cxx",
+  'd._upcast = get_cast_function(base_type, cpptype, "upcast");', 'd._upcast = get_cast_function(cpptype, base_type, "upcast");',
+  expect="R05.4|define_struct_type|upcast-roles")
+M("C05-downcast-flag-for-upcast", "C05", "src/interrogate/interrogateBuilder.cxx",
+  "          d._flags |= InterrogateType::DF_upcast;", "          d._flags |= InterrogateType::DF_downcast;",
+  expect="R05.4|define_struct_type|upcast-flag")
+M("C05-downcast-through-virtual", "C05", "src/interrogate/interrogateBuilder.cxx",
+  "          if (base._is_virtual) {\n            // If this is a virtual inheritance, we can't write a downcast.", "          if (false) {\n            // If this is a virtual inheritance, we can't write a downcast.",
+  expect="R05.4|define_struct_type|no-downcast-through-virtual-base")
+M("C05-private-bases-recorded", "C05", "src/interrogate/interrogateBuilder.cxx",
+  "    const CPPStructType::Base &base = (*bi);\n    if (base._vis <= V_public) {", "    const CPPStructType::Base &base = (*bi);\n    if (base._vis <= V_private) {",
+  expect="R05.4|define_struct_type|derivation#")
+M("C05-param-name-from-first", "C05", "src/interrogate/functionRemap.cxx",
+  "    param._name = (*pi)._name;\n    if ((*pi)._has_name) {", "    param._name = _parameters.front()._name;\n    if ((*pi)._has_name) {",
+  expect="R05.4|make_wrapper_entry|parameter-name")
+M("C05-benign-cast-locals", "C05", "src/interrogate/interrogateBuilder.cxx",
+  '          d._upcast = get_cast_function(base_type, cpptype, "upcast");\n          d._flags |= InterrogateType::DF_upcast;', '          d._flags |= InterrogateType::DF_upcast;\n          d._upcast = get_cast_function(base_type, cpptype, "upcast");',
+  benign=True)
+
 # ---------------------------------------------------------------- C10
 M("C10-destructible-ignores-deleted", "C10", "src/cppparser/cppStructType.cxx",
   "    if (destructor->_storage_class & CPPInstance::SC_deleted) {\n      // Yes, but it's explicitly been deleted.\n      return false;\n    }\n", "",
